@@ -29,6 +29,7 @@ fn streams() -> Vec<Stream> {
     vec![
         Stream { name: "trees-small", count: (6_000, 300_000), exhaustive: false, run: trees_small },
         Stream { name: "random-tapes-large", count: (6_000, 300_000), exhaustive: false, run: tapes_large },
+        Stream { name: "tuned-to-the-boundary", count: (16_000, 800_000), exhaustive: false, run: tuned },
     ]
 }
 
@@ -327,36 +328,49 @@ fn run_leaf(ctx: &mut Ctx, inst: &Inst, tape: &[u64]) -> Vec<(u64, u64)> {
                             d["added_coins"] = json!(added_coins.iter().map(|x| x.to_string()).collect::<Vec<_>>());
                             ctx.violation(&format!("largest-first/added-set-is-not-the-largest-offered/{}", sname), d);
                         }
-                        // minimality: without its smallest member the pre-state must not cover
+                        // minimality: without the member added LAST the pre-state must not cover. The order of
+                        // addition is not observable among equal amounts (and members of equal amount can differ
+                        // in what they cost: an owner already signing adds no witness), so every member of the
+                        // smallest amount is tried as "the last one": refuted only if stopping before ANY of them
+                        // would have covered
                         if let Some(smallest) = added_coins.last() {
-                            let mut tb2 = inst.tb.clone();
-                            let mut dropped = false;
-                            let mut ok = true;
-                            for a in &added {
-                                let u = vkit::ledger::find_utxo(&inst.utxos, &a.0, a.1).unwrap();
-                                if !dropped && u.val.coin == *smallest {
-                                    dropped = true;
-                                    continue;
+                            let ties: Vec<&(Vec<u8>, u64)> = added.iter().filter(|a| vkit::ledger::find_utxo(&inst.utxos, &a.0, a.1).map(|u| u.val.coin) == Some(*smallest)).collect();
+                            let mut all_cover = !ties.is_empty();
+                            let mut judged = false;
+                            for last in &ties {
+                                let mut tb2 = inst.tb.clone();
+                                let mut ok = true;
+                                for a in &added {
+                                    if a == *last {
+                                        continue;
+                                    }
+                                    let idx = inst.utxos.iter().position(|x| x.txid == a.0 && x.ix == a.1).unwrap();
+                                    let pos = inst.offered.iter().position(|o| *o == idx).unwrap();
+                                    let cu = inst.offered_csl.get(pos);
+                                    #[allow(deprecated)]
+                                    if guard(|| tb2.add_regular_input(&cu.output().address(), &cu.input(), &cu.output().amount())).map(|r| r.is_err()).unwrap_or(true) {
+                                        ok = false;
+                                    }
                                 }
-                                let idx = inst.utxos.iter().position(|x| x.txid == a.0 && x.ix == a.1).unwrap();
-                                let pos = inst.offered.iter().position(|o| *o == idx).unwrap();
-                                let cu = inst.offered_csl.get(pos);
-                                #[allow(deprecated)]
-                                if guard(|| tb2.add_regular_input(&cu.output().address(), &cu.input(), &cu.output().amount())).map(|r| r.is_err()).unwrap_or(true) {
-                                    ok = false;
+                                let after2 = outpoints_of(&tb2);
+                                match (ok, sum_of(inst, &after2), needed_of(&tb2)) {
+                                    // with no inputs at all the code's "at least one input" branch applies: not judged
+                                    (true, Some(h2), Some(n2)) if !after2.is_empty() => {
+                                        judged = true;
+                                        if h2.coin < n2.coin {
+                                            all_cover = false;
+                                        }
+                                    }
+                                    _ => all_cover = false,
                                 }
                             }
-                            if ok && added.len() >= 1 {
-                                let after2 = outpoints_of(&tb2);
-                                if let (Some(h2), Some(n2)) = (sum_of(inst, &after2), needed_of(&tb2)) {
-                                    // with no inputs at all the code's "at least one input" branch applies: not judged
-                                    if !after2.is_empty() && h2.coin >= n2.coin {
-                                        let mut d = det();
-                                        d["added_coins"] = json!(added_coins.iter().map(|x| x.to_string()).collect::<Vec<_>>());
-                                        ctx.violation(&format!("largest-first/did-not-stop-when-covered/{}", sname), d);
-                                    } else {
-                                        ctx.bucket("lf.minimal");
-                                    }
+                            if judged {
+                                if all_cover {
+                                    let mut d = det();
+                                    d["added_coins"] = json!(added_coins.iter().map(|x| x.to_string()).collect::<Vec<_>>());
+                                    ctx.violation(&format!("largest-first/did-not-stop-when-covered/{}", sname), d);
+                                } else {
+                                    ctx.bucket("lf.minimal");
                                 }
                             }
                         }
@@ -455,6 +469,69 @@ fn trees_small(ctx: &mut Ctx, r: &mut Rng, i: u64) {
         d["tree_complete"] = json!(complete);
         d
     });
+}
+
+/// selections tuned to the boundary: an instance is run once (not judged) to learn which inputs a tape
+/// selects and with how much slack; one selected UTxO is then made `slack + d` lovelace poorer
+/// (d = 1..300), so that the same selection would end d lovelace short, and the tape is run again: the
+/// strategy must select more or fail. A fee increment that is a few lovelace short shows only here.
+fn tuned(ctx: &mut Ctx, r: &mut Rng, _i: u64) {
+    let ring = ring(ctx);
+    let k = r.below(4) as u8;
+    let n = 2 + r.usize(7);
+    let inst = match make_instance(r, ring, n, k) {
+        Some(x) => x,
+        None => return,
+    };
+    let tape: Vec<u64> = (0..64).map(|_| r.u64()).collect();
+    // first run, silent
+    let mut tb = inst.tb.clone();
+    let pre_ops = outpoints_of(&tb);
+    rand::verif_choice::install(tape.clone());
+    let res = guard(|| tb.add_inputs_from(&inst.offered_csl, strat(inst.k).0));
+    let _ = rand::verif_choice::uninstall();
+    if !matches!(res, Ok(Ok(()))) {
+        ctx.bucket("tuned.first-run-not-ok");
+        return;
+    }
+    let after = outpoints_of(&tb);
+    let (have, need) = match (sum_of(&inst, &after), needed_of(&tb)) {
+        (Some(h), Some(n)) => (h, n),
+        _ => return,
+    };
+    let slack = have.coin - need.coin;
+    if slack < 0 {
+        return; // judged by the other streams
+    }
+    let added: Vec<(Vec<u8>, u64)> = after.iter().filter(|x| !pre_ops.contains(x)).cloned().collect();
+    if added.is_empty() {
+        return;
+    }
+    let d = 1 + r.below(300) as i128;
+    let victim = &added[r.usize(added.len())];
+    let vi = match inst.utxos.iter().position(|u| u.txid == victim.0 && u.ix == victim.1) {
+        Some(i) => i,
+        None => return,
+    };
+    if inst.utxos[vi].val.coin <= slack + d + 1_000_000 {
+        ctx.bucket("tuned.victim-too-small");
+        return;
+    }
+    let mut utxos = inst.utxos.clone();
+    utxos[vi].val.coin -= slack + d;
+    let mut offered_csl = TransactionUnspentOutputs::new();
+    for oi in &inst.offered {
+        let u = &utxos[*oi];
+        let input = TransactionInput::new(&TransactionHash::from_bytes(u.txid.clone()).unwrap(), u.ix as u32);
+        let out = TransactionOutput::new(&Address::from_bytes(u.addr.clone()).unwrap(), &val_to_csl(&u.val));
+        offered_csl.add(&TransactionUnspentOutput::new(&input, &out));
+    }
+    let mut desc = inst.desc.clone();
+    desc["tuned"] = json!(format!("offered UTxO {}#{} made {} lovelace poorer (slack {} + {})", hx(&victim.0[..4]), victim.1, slack + d, slack, d));
+    desc["offered"] = json!(inst.offered.iter().enumerate().map(|(j, oi)| format!("#{} coin={} assets={:?}", j, utxos[*oi].val.coin, utxos[*oi].val.assets.values().collect::<Vec<_>>())).collect::<Vec<_>>());
+    let inst2 = Inst { tb: inst.tb.clone(), utxos, offered: inst.offered.clone(), pre: inst.pre.clone(), offered_csl, k: inst.k, desc, outputs_have_assets: inst.outputs_have_assets, implicit: inst.implicit };
+    ctx.bucket("tuned.second-run");
+    run_leaf(ctx, &inst2, &tape);
 }
 
 fn tapes_large(ctx: &mut Ctx, r: &mut Rng, i: u64) {
